@@ -146,6 +146,75 @@ def c11_machine_jobs(tier):
         for n in (2, 3, 4, 5): J.append(mjob('m-n%d-ind' % n, 11, N=n, K=1, INDUCTIVE=1, OPS=ALLOPS, timeout=T, **HIST))
     return J
 
+def c13_jobs(tier):
+    J = []
+    T = 300 if tier == 'quick' else 1200
+    def kj(name, **d):
+        cap = d.get('CAP', 255)
+        return Job(name, 'bitstream.cpp', d, unwind=max(50, (cap + 7) // 8 + 3), unwindset={'nondet_fill.0': 40}, timeout=T, prop=(1300, 1399))
+    for w in range(1, 33): J.append(kj('bs-w%d' % w, W=w, CAP=255, MODE=0))
+    caps = (1, 7, 8, 9, 33) if tier == 'quick' else (1, 2, 7, 8, 9, 15, 16, 17, 31, 32, 33, 63, 64, 65, 127, 128, 129, 254)
+    for cap in caps:
+        for w in sorted(set(x for x in (1, 2, 7, 8, 9, 16, 17, 32) if x <= cap)):
+            if tier == 'quick' and w not in (1, 8, 9, 32) and cap != 33: continue
+            J.append(kj('bs-cap%d-w%d' % (cap, w), W=w, CAP=cap, MODE=0))
+    J.append(kj('bitwidth', MODE=1))
+    pairs = ((1, 1), (3, 13), (8, 8), (13, 32), (32, 32), (7, 9)) if tier == 'quick' else tuple((a, b) for a in (1, 3, 7, 8, 9, 13, 16, 17, 31, 32) for b in (1, 5, 8, 11, 16, 24, 32))
+    for a, b in pairs: J.append(kj('bs-seq-%d-%d' % (a, b), W=a, W2=b, CAP=255, MODE=2))
+    return J
+
+BOUNDARY_CAPS = (1, 2, 7, 8, 9, 15, 16, 17, 31, 32, 33, 63, 64, 65, 127, 128, 129, 254, 255)
+
+def api_probe(tier, work):
+    """Regeneration step (not a solver verdict): the public-interface probe must compile with access control on."""
+    variants, _ = engine.header_variants(work)
+    out = dict(violations=[], inconclusive=[], report={})
+    for vname, inc in variants:
+        for cxx in ('g++', 'clang++-14'):
+            rc, o, _ = engine.run([cxx, '-std=c++11', '-fsyntax-only', '-I', inc, os.path.join(engine.HARNESS, 'api_probe.cpp')], timeout=300)
+            out['report']['api_probe %s %s' % (vname, cxx)] = 'compiles' if rc == 0 else 'DOES NOT COMPILE'
+            if rc != 0:
+                rp = os.path.join(engine.OUT, 'replay', 'C20-api_probe-%s-%s.json' % (vname, cxx)); os.makedirs(os.path.dirname(rp), exist_ok=True)
+                json.dump(dict(property='C20', kind='compile', cmd=[cxx, '-std=c++11', '-fsyntax-only', '-I', inc, 'harness/api_probe.cpp'], output=o[-3000:]), open(rp, 'w'), indent=1)
+                out['violations'].append(dict(label='api_probe:compile:%s' % cxx, replay=rp, job='api_probe', trace=o[-400:]))
+    return out
+
+def c20_jobs(tier):
+    J = []
+    T = 300 if tier == 'quick' else 1200
+    caps = BOUNDARY_CAPS if tier == 'quick' else tuple(range(1, 256))
+    def kj(name, cap, **d):
+        d['CAP'] = cap
+        return Job(name, 'containers.cpp', d, unwind=cap + 6, unwindset={'nondet_fill.0': 4 * cap + 16}, timeout=T, prop=(2000, 2099))
+    for cap in caps:
+        J.append(kj('bits-cap%d' % cap, cap, MODE=0))
+    acaps = (1, 2, 7, 8, 9, 31, 32, 33, 127, 128, 254, 255) if tier == 'quick' else BOUNDARY_CAPS + (3, 4, 5, 6, 100, 200)
+    for cap in acaps:
+        et = (0,) if tier == 'quick' and cap > 33 else (0, 1, 2)
+        for e in et:
+            if cap * (4 if e == 1 else 3 if e == 2 else 1) > 800: continue
+            J.append(kj('static-cap%d-e%d' % (cap, e), cap, MODE=1, ETYPE=e))
+            if cap < 255: J.append(kj('dynamic-cap%d-e%d' % (cap, e), cap, MODE=2, ETYPE=e))
+    return J
+
+def c10_jobs(tier):
+    J = []
+    T = 300 if tier == 'quick' else 1500
+    caps = (1, 2, 3, 4) if tier == 'quick' else (1, 2, 3, 4, 5, 6, 7, 8)
+    def kj(name, cap, **d):
+        d['CAP'] = cap
+        return Job(name, 'tasklist.cpp', d, unwind=max(6, cap + 3), unwindset={'nondet_fill.0': 40 + 16 * cap}, timeout=T, prop=(1000, 1099))
+    for cap in caps:
+        for pay in (0, 1):
+            J.append(kj('plan-ind-cap%d-p%d' % (cap, pay), cap, MODE=0, PAYLOAD=pay))
+            J.append(kj('tasks-ind-cap%d-p%d' % (cap, pay), cap, MODE=2, PAYLOAD=pay))
+        if cap <= (3 if tier == 'quick' else 5):
+            k = cap + 2 if tier == 'quick' else 2 * cap + 2
+            j = kj('plan-hist-cap%d-k%d' % (cap, k), cap, MODE=1, KSTEPS=k); j.unwind = max(j.unwind, k + 3); J.append(j)
+    if tier != 'quick':
+        j = kj('plan-hist-cap3-pay', 3, MODE=1, PAYLOAD=1, KSTEPS=6); j.unwind = 10; J.append(j)
+    return J
+
 def encoded_functions(job, work, inc):
     """FFSM2 functions reachable from the harness entry point, from the -O0 IR (at -O1 most are inlined into harness())."""
     wd = os.path.join(work, 'fenc-' + re.sub(r'\W', '_', job.name)); os.makedirs(wd, exist_ok=True)
@@ -174,6 +243,21 @@ PROPS = {
     'C05': dict(range=(500, 599), jobs=c05_jobs, bounds=dict(quick='N in {1,2,3} (+4 inductive), K=2, event types int / packed 3-byte / 40-byte, with and without root head', thorough='N in 1..5, K=3'), outside='event types outside the three encoded'),
     'C06': dict(range=(600, 699), jobs=c06_jobs, bounds=dict(quick='N<=3, K<=2, value/reference/pointer context, all four control flavours, symbolic queried id', thorough='N<=5, K<=3'), outside='as C01'),
     'C07': dict(range=(700, 799), jobs=c07_jobs, bounds=dict(quick='payload types 1..6 of the family (sizes 1..8, alignments 1..8), N=3, K=2', thorough='all 16 payload types (sizes 1..24, alignments 1..16)'), outside='payload types outside the family; non-trivially-copyable payloads; plan-task payloads are checked in the plan harness'),
+    'C13': dict(range=(1300, 1399), jobs=c13_jobs,
+                bounds=dict(quick='one inductive step per width W=1..32 at capacity 255 (symbolic cursor, value, prior buffer under the stream invariant); capacities {1,7,8,9,33} x boundary widths; bitWidth() for every 32-bit argument and every (count<=255, index<count); six two-field sequences',
+                            thorough='same plus 18 capacities and 70 two-field sequences'),
+                outside='stream capacities other than those listed are covered only through the capacity-independent code path (the code has no capacity-dependent branch besides the byte count); widths > 32 do not exist',
+                assumptions=['cursor + width <= capacity and value < 2^width (FFSM2_ASSERT / documented)', 'stream invariant: no bit at or past the cursor is set (established by the constructor, re-established by every write: checked)']),
+    'C20': dict(range=(2000, 2099), jobs=c20_jobs, pre=api_probe,
+                bounds=dict(quick='inductive step (arbitrary contents under the representation invariant, one symbolic operation, symbolic observed index) for BitArrayT at 19 boundary capacities, StaticArrayT/DynamicArrayT at 12 capacities with element types Short (special filler), u32, 3-byte struct',
+                            thorough='BitArrayT at every capacity 1..255; arrays at 25 capacities x 3 element types'),
+                outside='DynamicArrayT capacity 255 (its Index type cannot represent count==255+1 and the library never instantiates it so); element types outside the three encoded; operator& (bool) of BitArrayT, which the statement does not mention',
+                assumptions=['indices passed are < capacity (FFSM2_ASSERT)', 'BitArrayT invariant: bits at or above the capacity in the last unit are zero (established by the constructor, re-established by every operation: checked)', 'DynamicArrayT invariant: count <= capacity; emplace only while count < capacity (FFSM2_ASSERT)']),
+    'C10': dict(range=(1000, 1099), jobs=c10_jobs,
+                bounds=dict(quick='task capacity 1..4, void and {u32} payload: one operation (append / iterator-remove at a symbolic position during iteration / clear) from every free-list+plan-list state satisfying the representation invariant, invariant re-established; base case; histories of 2*CAP+2 operations from construction for CAP<=3',
+                            thorough='capacity 1..8; histories for CAP<=5'),
+                outside='capacity > 8 (no capacity-dependent branch beyond CAP-1 exists in the code); consumption by firing and plan-outcome clearing are checked through the machine in C08/C09',
+                assumptions=['representation invariant I of TaskListT/PlanT as written in harness/tasklist.cpp (inv_tasks, inv_plan): holds for the constructed object (checked) and is preserved by every operation (checked)', 'origins/destinations of stored tasks are valid state ids']),
     'C11': dict(range=(1100, 1199), jobs=c11_machine_jobs, bounds=dict(quick='N<=4, K<=3', thorough='N<=5, K<=4'), outside='as C01'),
 }
 
